@@ -294,17 +294,31 @@ func allCapped(c *common.Ctx, fs []fail) bool {
 }
 
 func report(c *common.Ctx, eval func(tok func(string) lexgen.Run) ([]fail, string)) {
-	fs, out := eval(lexgen.TokenizeShared)
+	// every text is tokenized through both entry points; the oracle is evaluated on Tokenize's
+	// result and, whenever TokenizeContext observed anything different, on that one as well
+	diverged := false
+	fs, out := eval(func(text string) lexgen.Run {
+		r := lexgen.TokenizeShared(text)
+		if !diverged && !lexgen.SameRun(r, lexgen.TokenizeContextShared(text)) {
+			diverged = true
+		}
+		return r
+	})
 	if len(fs) > 0 && !allCapped(c, fs) {
 		fs, out = eval(lexgen.Tokenize)
 	}
 	c.Outcome(out)
 	emit(c, fs)
+	if diverged {
+		fs2, out2 := eval(lexgen.TokenizeContext)
+		c.Outcome("TokenizeContext-differs:" + out2)
+		for i := range fs2 {
+			fs2[i].sig += "@TokenizeContext"
+			fs2[i].msg = "via TokenizeContext (Tokenize reads the same text differently): " + fs2[i].msg
+		}
+		emit(c, fs2)
+	}
 }
-
-// fragment alphabet of the "all short strings" space
-var frags = []string{"'", "\"", "`", "\\", "$", "$$", "a", "E", "1", ".", "e", "+", "-", "/", "*", "\n", " ", ";", "(", ",", ":", "@", "#", "?", "[",
-	"é", "“", "«", "<", ">", "=", "!", "~", "|", "&", "\xff", "\x00"}
 
 // words spelled like keywords, used inside quotes (clause v)
 var extraWords = []string{"LATERAL", "ANY", "SOME", "RETURNING", "VALID", "URL", "OWNER", "MEMBER", "POLICY", "UNTIL", "RESET",
@@ -460,7 +474,7 @@ func enumerate(e *common.Enum) {
 		if depth == maxLen {
 			return
 		}
-		for i, f := range frags {
+		for i, f := range lexgen.Fragments() {
 			rec(prefix+f, fmt.Sprintf("%s%02d", key, i), depth+1)
 		}
 	}
